@@ -327,7 +327,12 @@ EXTRA2 = {
     "C30": " Also decided: no log(1+x) / exp(x)-1 spelled out; value_reshaper's case table is complete; inverse transforms apply no clamp; log-space tables hold unshifted quantiles and each of scale / loc is applied exactly once.",
     "C32": " Also decided: a turning or diverging sub-tree is never merged (unconditional disjuncts of the keep-old predicate); the sub-tree U-turn loop index stays in its declared range; a NaN weight difference never yields a positive transition probability (abstract evaluation).",
     "C33": " Also decided: norm special cases are keyed by the exact order; unstack counts pieces along the split axis; where() chooses its broadcast target among all three operands; mean_and_std squares moduli; a specification known to be None is not itself flattened.",
-    "C34": " Also decided: the analytic prior term uses the expansion point first and the inner product of the mean with itself."
+    "C34": " Also decided: the analytic prior term uses the expansion point first and the inner product of the mean with itself.",
+    "C05": " Also decided: the grouping key of a leaf chain covers every operator walked from the input side (adapters included).",
+    "C29": " Also decided: per-interval factors of the integrated Wiener process stand under the time-axis expansion; optional numeric arguments are tested with `is None`; the scalar wrapper lifts drift and amplitude from their own values.",
+    "C31": " Also decided: parent() divides by the level's own parent_splits; the flat grid reads the per-level shapes from the wrapped grid; the log-grid pixel volume is the difference of its edges.",
+    "C35": " Also decided: every accepted constructor option is read and no computed local is dropped; explicit shifts around an FFT-order transform are oriented (fftshift out, ifftshift in); a single line of sight is not mapped over its coordinate axis.",
+    "C36": " Also decided: residual diagnostics of a frozen likelihood insert the frozen values; the classic normalized_residual keeps no state between samples; parallel lists handed to zip are filled together; classic and JAX chi-square conventions agree on complex residuals (one recorded finding: they do not)."
 }
 for _d in (EXTRA, EXTRA2):
     for _k, _v in _d.items():
